@@ -234,7 +234,8 @@ Definition letters (t : table) : list letter :=
 Definition alphabet : list letter :=
   [K "CREATE"; K "TABLE"; G; LDot; LStr; LPl; RPl; CMl; K "NOT"; K "NULL"; K "DEFAULT"; K "PRIMARY"; K "KEY"; K "UNIQUE";
    K "REFERENCES"; K "ON"; K "DELETE"; K "UPDATE"; K "CONSTRAINT"; K "FOREIGN";
-   K "TABLESPACE"; K "STORED"; K "AS"; K "LOCATION"; K "ENGINE"; K "COMMENT"; K "USING"; K "IN"; LEq] ++ name_letters ++ colname_letters.
+   K "TABLESPACE"; K "STORED"; K "AS"; K "LOCATION"; K "ENGINE"; K "COMMENT"; K "USING"; K "IN"; LEq;
+   K "ROW"; K "FORMAT"; K "SERDE"; K "TERMINATED"; K "BY"; K "COLLECTION"; K "ITEMS"; K "MAP"; K "KEYS"; K "INTO"] ++ name_letters ++ colname_letters.
 
 (* ---------- the reference machine F ---------------------------------------------------------------------------------- *)
 Inductive ctx := First | Later.
@@ -276,9 +277,15 @@ Definition close_red (c : ctx) : string :=
   match c with First => "expr -> table_name LP defcolumn" | Later => "expr -> expr COMMA defcolumn" end.
 
 (* clauses after the column list: what is still to be reduced when the next clause (or the end) arrives *)
-Inductive cpend := CPTs | CPStored | CPLoc | CPEng | CPCom | CPUs | CPIn.
+Inductive cpend := CPTs | CPStored | CPLoc | CPEng | CPCom | CPUs | CPIn
+                 | CPRowSerde | CPRowWord | CPTerm | CPColl | CPMap | CPComStr | CPGen | CPInto.
 Definition cpend_eqb (a b : cpend) : bool :=
-  match a, b with CPTs, CPTs | CPStored, CPStored | CPLoc, CPLoc | CPEng, CPEng | CPCom, CPCom | CPUs, CPUs | CPIn, CPIn => true | _, _ => false end.
+  match a, b with
+  | CPTs, CPTs | CPStored, CPStored | CPLoc, CPLoc | CPEng, CPEng | CPCom, CPCom | CPUs, CPUs | CPIn, CPIn
+  | CPRowSerde, CPRowSerde | CPRowWord, CPRowWord | CPTerm, CPTerm | CPColl, CPColl | CPMap, CPMap | CPComStr, CPComStr
+  | CPGen, CPGen | CPInto, CPInto => true
+  | _, _ => false
+  end.
 Lemma cpend_eqb_eq a b : cpend_eqb a b = true -> a = b.
 Proof. destruct a, b; simpl; congruence. Qed.
 Definition cpending (p : cpend) : list string :=
@@ -290,6 +297,14 @@ Definition cpending (p : cpend) : list string :=
   | CPCom => ["STRING -> STRING_BASE"; "option_comment -> COMMENT EQ STRING"; "expr -> expr option_comment"]
   | CPUs => ["id -> ID"; "using -> USING id"; "expr -> expr using"]
   | CPIn => ["id -> ID"; "expr -> expr IN id"]
+  | CPRowSerde => ["STRING -> STRING_BASE"; "expr -> expr row_format STRING"]
+  | CPRowWord => ["id -> ID"; "expr -> expr row_format id"]
+  | CPTerm => ["STRING -> STRING_BASE"; "expr -> expr id TERMINATED BY STRING"]
+  | CPColl => ["STRING -> STRING_BASE"; "expr -> expr COLLECTION ITEMS TERMINATED BY STRING"]
+  | CPMap => ["STRING -> STRING_BASE"; "expr -> expr MAP KEYS TERMINATED BY STRING"]
+  | CPComStr => ["STRING -> STRING_BASE"; "expr -> expr COMMENT STRING"]
+  | CPGen => ["id -> ID"; "expr -> expr id id"]
+  | CPInto => ["expr -> expr INTO ID ID"]
   end.
 
 (* which table-level column list is being read: PRIMARY KEY / UNIQUE / FOREIGN KEY / the referenced columns (named by CONSTRAINT?) *)
@@ -301,6 +316,7 @@ Inductive q :=
 | TFR0 (n : bool) | TFR1 (n : bool) | TFRD (n : bool) | TFR2 (n : bool)
 | TRON (n : bool) (upd_only : bool) | TROD (n : bool) | TROU (n : bool) | TRDel (n : bool) | TRUpd (n : bool)
 | XTS | XST | XSA | XLOC | XEN | XEE | XCM | XCE | XUS | XIN | CB (p : cpend)
+| XRW | XRF | XRS | XG1 | XGT | XGB | XCO | XCI | XCT | XCY | XMP | XMK | XMT | XMY | XI1 | XI2
 | T0 | T1 | T2 | N1 | ND | N2 | END
 | C0 (c : ctx) | C1 (c : ctx)
 | SZ0 (c : ctx) (two : bool) | SZ1 (c : ctx) | SZ2 (c : ctx) | SZ3 (c : ctx)
@@ -321,6 +337,8 @@ Definition tk_eqb (a b : tk) : bool :=
 Definition q_eqb (a b : q) : bool :=
   match a, b with
   | XTS, XTS | XST, XST | XSA, XSA | XLOC, XLOC | XEN, XEN | XEE, XEE | XCM, XCM | XCE, XCE | XUS, XUS | XIN, XIN => true
+  | XRW, XRW | XRF, XRF | XRS, XRS | XG1, XG1 | XGT, XGT | XGB, XGB | XCO, XCO | XCI, XCI | XCT, XCT | XCY, XCY
+  | XMP, XMP | XMK, XMK | XMT, XMT | XMY, XMY | XI1, XI1 | XI2, XI2 => true
   | CB x, CB y => cpend_eqb x y
   | TCN0, TCN0 | TCN1, TCN1 => true
   | TPK0 x, TPK0 y | TPK1 x, TPK1 y | TUQ0 x, TUQ0 y | TFK0 x, TFK0 y | TFK1 x, TFK1 y | TFR0 x, TFR0 y | TFR1 x, TFR1 y
@@ -393,6 +411,11 @@ Definition clause_start (ps : list string) (l : letter) : option (fout * q) :=
   else if is l "COMMENT" then Some ((ps, "COMMENT", Upper), XCM)
   else if is l "USING" then Some ((ps, "USING", Upper), XUS)
   else if is l "IN" then Some ((ps, "IN", Upper), XIN)
+  else if is l "ROW" then Some ((ps, "ROW", Upper), XRW)
+  else if is l "COLLECTION" then Some ((ps, "COLLECTION", Upper), XCO)
+  else if is l "MAP" then Some ((ps, "MAP", Upper), XMP)
+  else if is l "INTO" then Some ((ps, "INTO", Upper), XI1)
+  else if isG l then Some ((ps, "ID", Keep), XG1)
   else None.
 
 Definition fstep (s : q) (l : letter) : option (fout * q) :=
@@ -407,7 +430,7 @@ Definition fstep (s : q) (l : letter) : option (fout * q) :=
   | N2 => if isl l LPl then Some ((["id -> ID"; "t_name -> id DOT id"; "table_name -> create_table t_name"], "LP", Keep), C0 First)
           else None
   | END => clause_start ["expr -> expr RP"] l
-  | CB p => if cpend_eqb p CPTs && is l "IN" then None      (* TABLESPACE x IN ... is read as tablespace properties *)
+  | CB p => if cpend_eqb p CPTs && (is l "IN" || isG l) then None   (* TABLESPACE x IN ... / TABLESPACE x w ...: tablespace properties *)
             else clause_start (cpending p) l
   | XTS => if isG l then Some (([], "ID", Keep), CB CPTs) else None
   | XST => if is l "AS" then Some (([], "AS", Upper), XSA) else None
@@ -415,7 +438,26 @@ Definition fstep (s : q) (l : letter) : option (fout * q) :=
   | XLOC => if isl l LStr then Some (([], "STRING_BASE", Keep), CB CPLoc) else None
   | XEN => if isl l LEq then Some (([], "EQ", Keep), XEE) else None
   | XEE => if isG l then Some (([], "ID", Keep), CB CPEng) else None
-  | XCM => if isl l LEq then Some (([], "EQ", Keep), XCE) else None
+  | XCM => if isl l LEq then Some (([], "EQ", Keep), XCE)
+           else if isl l LStr then Some (([], "STRING_BASE", Keep), CB CPComStr) else None
+  | XRW => if is l "FORMAT" then Some (([], "FORMAT", Upper), XRF) else None
+  | XRF => if is l "SERDE" then Some (([], "SERDE", Upper), XRS)
+           else if isG l then Some ((["row_format -> ROW FORMAT"], "ID", Keep), CB CPRowWord) else None
+  | XRS => if isl l LStr then Some ((["row_format -> ROW FORMAT SERDE"], "STRING_BASE", Keep), CB CPRowSerde) else None
+  | XG1 => if is l "TERMINATED" then Some ((["id -> ID"], "TERMINATED", Upper), XGT)
+           else if isG l then Some ((["id -> ID"], "ID", Keep), CB CPGen) else None
+  | XGT => if is l "BY" then Some (([], "BY", Upper), XGB) else None
+  | XGB => if isl l LStr then Some (([], "STRING_BASE", Keep), CB CPTerm) else None
+  | XCO => if is l "ITEMS" then Some (([], "ITEMS", Upper), XCI) else None
+  | XCI => if is l "TERMINATED" then Some (([], "TERMINATED", Upper), XCT) else None
+  | XCT => if is l "BY" then Some (([], "BY", Upper), XCY) else None
+  | XCY => if isl l LStr then Some (([], "STRING_BASE", Keep), CB CPColl) else None
+  | XMP => if is l "KEYS" then Some (([], "KEYS", Upper), XMK) else None
+  | XMK => if is l "TERMINATED" then Some (([], "TERMINATED", Upper), XMT) else None
+  | XMT => if is l "BY" then Some (([], "BY", Upper), XMY) else None
+  | XMY => if isl l LStr then Some (([], "STRING_BASE", Keep), CB CPMap) else None
+  | XI1 => if isG l then Some (([], "ID", Keep), XI2) else None
+  | XI2 => if isG l then Some (([], "ID", Keep), CB CPInto) else None
   | XCE => if isl l LStr then Some (([], "STRING_BASE", Keep), CB CPCom) else None
   | XUS => if isG l then Some (([], "ID", Keep), CB CPUs) else None
   | XIN => if isG l then Some (([], "ID", Keep), CB CPIn) else None
@@ -714,10 +756,20 @@ Definition tablec_of_args (l : list string) : option tablec :=
 
 (* ====================================================================================================================
    Clauses after the column list (property C11), any number, subset and order:
-     TABLESPACE n | STORED AS f | LOCATION 'path' | ENGINE = e | COMMENT = 'text' | USING f | IN n *)
+     TABLESPACE n | STORED AS f | LOCATION 'path' | ENGINE = e | COMMENT = 'text' | USING f | IN n | ROW FORMAT SERDE 'class' |
+     ROW FORMAT word | word TERMINATED BY 'c' | COLLECTION ITEMS TERMINATED BY 'c' | MAP KEYS TERMINATED BY 'c' | COMMENT 'text' |
+     word word (DISTSTYLE EVEN ...) | INTO n BUCKETS *)
 Inductive tclause :=
 | CTablespace (kw n : string) | CStored (kw1 kw2 v : string) | CLocation (kw s : string) | CEngine (kw v : string)
-| CComment (kw s : string) | CUsing (kw v : string) | CIn (kw v : string).
+| CComment (kw s : string) | CUsing (kw v : string) | CIn (kw v : string)
+| CRowSerde (k1 k2 k3 s : string)          (* ROW FORMAT SERDE 'class' *)
+| CRowWord (k1 k2 w : string)              (* ROW FORMAT DELIMITED *)
+| CTerm (w k1 k2 s : string)               (* FIELDS | LINES ... TERMINATED BY 'c' *)
+| CColl (k1 k2 k3 k4 s : string)           (* COLLECTION ITEMS TERMINATED BY 'c' *)
+| CMapKeys (k1 k2 k3 k4 s : string)        (* MAP KEYS TERMINATED BY 'c' *)
+| CCommentStr (kw s : string)              (* COMMENT 'text' *)
+| CGen (w1 w2 : string)                    (* two plain words: DISTSTYLE EVEN ... *)
+| CInto (kw n w : string).                 (* INTO 4 BUCKETS *)
 Record tablex := mkTableX { tx_tc : tablec; tx_clauses : list tclause }.
 
 Definition EQL : lexeme := ("t_EQ", "=").
@@ -730,11 +782,20 @@ Definition wf_clause (c : tclause) : bool :=
   | CComment k _ => is_kw k "COMMENT"
   | CUsing k v => is_kw k "USING" && is_plain v
   | CIn k v => is_kw k "IN" && is_plain v
+  | CRowSerde a b c _ => is_kw a "ROW" && is_kw b "FORMAT" && is_kw c "SERDE"
+  | CRowWord a b w => is_kw a "ROW" && is_kw b "FORMAT" && is_plain w
+  | CTerm w a b _ => is_plain w && is_kw a "TERMINATED" && is_kw b "BY"
+  | CColl a b c d _ => is_kw a "COLLECTION" && is_kw b "ITEMS" && is_kw c "TERMINATED" && is_kw d "BY"
+  | CMapKeys a b c d _ => is_kw a "MAP" && is_kw b "KEYS" && is_kw c "TERMINATED" && is_kw d "BY"
+  | CCommentStr k _ => is_kw k "COMMENT"
+  | CGen w1 w2 => is_plain w1 && is_plain w2
+  | CInto k n w => is_kw k "INTO" && is_plain n && is_plain w
   end.
-(* TABLESPACE x directly followed by IN ... is read by the grammar as one tablespace clause with properties *)
+(* TABLESPACE x directly followed by IN ... or by a plain word is read by the grammar as one tablespace clause with properties *)
+Definition starts_plain (c : tclause) : bool := match c with CIn _ _ | CTerm _ _ _ _ | CGen _ _ => true | _ => false end.
 Fixpoint no_ts_then_in (l : list tclause) : bool :=
   match l with
-  | CTablespace _ _ :: ((CIn _ _ :: _) as r) => false
+  | CTablespace _ _ :: ((c :: _) as r) => negb (starts_plain c) && no_ts_then_in r
   | _ :: r => no_ts_then_in r
   | [] => true
   end.
@@ -747,6 +808,13 @@ Definition clause_lexemes (c : tclause) : list lexeme :=
   | CComment k s => [W k; EQL; SB s]
   | CUsing k v => [W k; W v]
   | CIn k v => [W k; W v]
+  | CRowSerde a b c s => [W a; W b; W c; SB s]
+  | CRowWord a b w => [W a; W b; W w]
+  | CTerm w a b s => [W w; W a; W b; SB s]
+  | CColl a b c d s | CMapKeys a b c d s => [W a; W b; W c; W d; SB s]
+  | CCommentStr k s => [W k; SB s]
+  | CGen w1 w2 => [W w1; W w2]
+  | CInto k n w => [W k; W n; W w]
   end.
 Definition clause_letters (c : tclause) : list letter :=
   match c with
@@ -757,38 +825,59 @@ Definition clause_letters (c : tclause) : list letter :=
   | CComment _ _ => [K "COMMENT"; LEq; LStr]
   | CUsing _ _ => [K "USING"; G]
   | CIn _ _ => [K "IN"; G]
+  | CRowSerde _ _ _ _ => [K "ROW"; K "FORMAT"; K "SERDE"; LStr]
+  | CRowWord _ _ _ => [K "ROW"; K "FORMAT"; G]
+  | CTerm _ _ _ _ => [G; K "TERMINATED"; K "BY"; LStr]
+  | CColl _ _ _ _ _ => [K "COLLECTION"; K "ITEMS"; K "TERMINATED"; K "BY"; LStr]
+  | CMapKeys _ _ _ _ _ => [K "MAP"; K "KEYS"; K "TERMINATED"; K "BY"; LStr]
+  | CCommentStr _ _ => [K "COMMENT"; LStr]
+  | CGen _ _ => [G; G]
+  | CInto _ _ _ => [K "INTO"; G; G]
   end.
 (* each clause sets exactly one key of the table entity, to exactly the declared value, and touches nothing else *)
-Definition clause_key (c : tclause) : string :=
+Definition clause_key (norm : bool) (c : tclause) : string :=
   match c with
   | CTablespace _ _ | CIn _ _ => "tablespace" | CStored _ _ _ => "stored_as" | CLocation _ _ => "location"
-  | CEngine _ _ => "engine" | CComment _ _ => "comment" | CUsing _ _ => "using"
+  | CEngine _ _ => "engine" | CComment _ _ | CCommentStr _ _ => "comment" | CUsing _ _ => "using"
+  | CRowSerde _ _ _ _ | CRowWord _ _ _ => "row_format"
+  | CTerm w _ _ _ => lower (nms norm w) ++ "_terminated_by"          (* fields_terminated_by, lines_terminated_by ... *)
+  | CColl _ _ _ _ _ => "collection_items_terminated_by" | CMapKeys _ _ _ _ _ => "map_keys_terminated_by"
+  | CGen w1 _ => nms norm w1                                          (* the first word as written is the key *)
+  | CInto _ _ w => "into_" ++ lower w
   end.
 Definition clause_value (norm : bool) (c : tclause) : pyval :=
   match c with
   | CTablespace _ n => PDict [("tablespace_name", nmv norm n); ("properties", PNone); ("type", PNone); ("temporary", PBool false)]
   | CStored _ _ v | CEngine _ v | CUsing _ v | CIn _ v => nmv norm v
   | CLocation _ s | CComment _ s => PStr s
+  | CRowSerde _ _ _ s => PDict [("serde", PBool true); ("java_class", PStr s)]
+  | CRowWord _ _ w => PStr (check_spec (nms norm w))
+  | CTerm _ _ _ s | CColl _ _ _ _ s | CMapKeys _ _ _ _ s | CCommentStr _ s => PStr (check_spec s)   (* 'pars_m_t' etc. stand for tab, newline ... *)
+  | CGen _ w2 => nmv norm w2
+  | CInto _ n _ => PStr n
   end.
 Definition clause_apply (norm : bool) (d : list (string * pyval)) (c : tclause) : list (string * pyval) :=
-  dict_set d (clause_key c) (clause_value norm c).
+  dict_set d (clause_key norm c) (clause_value norm c).
 
 Definition lexemes_x (tx : tablex) : list lexeme := lexemes_c (tx_tc tx) ++ flat_map clause_lexemes (tx_clauses tx).
 Definition letters_x (tx : tablex) : list letter := letters_c (tx_tc tx) ++ flat_map clause_letters (tx_clauses tx).
 Definition denote_x (norm : bool) (tx : tablex) : res (list (string * pyval)) :=
   do d <- denote_c norm (tx_tc tx); Ok (fold_left (clause_apply norm) (tx_clauses tx) d).
+Definition wf_clause_n (norm : bool) (c : tclause) : bool :=
+  wf_clause c && match c with CGen w1 _ => negb (String.eqb (nms norm w1) "IN") | _ => true end.
 Definition wf_x (norm : bool) (tx : tablex) : bool :=
-  wf_c norm (tx_tc tx) && forallb wf_clause (tx_clauses tx) && no_ts_then_in (tx_clauses tx).
+  wf_c norm (tx_tc tx) && forallb (wf_clause_n norm) (tx_clauses tx) && no_ts_then_in (tx_clauses tx).
 
 (* ---------- protocol for the clauses after the column list: after the table (and ITEMS) arguments the word CLAUSES, then per clause
-     TS k n "" | ST k1 k2 v | LO k s "" | EN k v "" | CO k s "" | US k v "" | IN k v "" *)
+     (tag and five words, unused ones empty)  TS k n | ST k1 k2 v | LO k s | EN k v | CO k s | US k v | IN k v | RS k1 k2 k3 s | RW k1 k2 w |
+     TE w k1 k2 s | CI k1 k2 k3 k4 s | MK k1 k2 k3 k4 s | CS k s | GE w1 w2 | IT k n w *)
 Fixpoint clauses_of_args (fuel : nat) (l : list string) : option (list tclause) :=
   match fuel with
   | O => None
   | Datatypes.S f =>
     match l with
     | [] => Some []
-    | tag :: a :: b :: c :: r =>
+    | tag :: a :: b :: c :: d :: e :: r =>
       match clauses_of_args f r with
       | None => None
       | Some cs =>
@@ -799,6 +888,14 @@ Fixpoint clauses_of_args (fuel : nat) (l : list string) : option (list tclause) 
         else if String.eqb tag "CO" then Some (CComment a b :: cs)
         else if String.eqb tag "US" then Some (CUsing a b :: cs)
         else if String.eqb tag "IN" then Some (CIn a b :: cs)
+        else if String.eqb tag "RS" then Some (CRowSerde a b c d :: cs)
+        else if String.eqb tag "RW" then Some (CRowWord a b c :: cs)
+        else if String.eqb tag "TE" then Some (CTerm a b c d :: cs)
+        else if String.eqb tag "CI" then Some (CColl a b c d e :: cs)
+        else if String.eqb tag "MK" then Some (CMapKeys a b c d e :: cs)
+        else if String.eqb tag "CS" then Some (CCommentStr a b :: cs)
+        else if String.eqb tag "GE" then Some (CGen a b :: cs)
+        else if String.eqb tag "IT" then Some (CInto a b c :: cs)
         else None
       end
     | _ => None
